@@ -38,6 +38,7 @@ func NewStubTable() *StubTable {
 	installDataStubs(t)
 	installAtomicStubs(t)
 	installSyncMapStubs(t)
+	installStringsStubs(t)
 	t.Native["sort.Slice"] = func(i *interpreter, caller *frame, fn *ssa.Function, args []value) value {
 		return sortSlice(i, caller, args)
 	}
@@ -72,6 +73,17 @@ func NewStubTable() *StubTable {
 			}
 			return callSSAraw(i, caller, token.NoPos, fn, args, nil)
 		}
+	}
+	t.Native["math.Modf"] = func(i *interpreter, caller *frame, fn *ssa.Function, args []value) value {
+		sx, ok := args[0].(symv)
+		if !ok {
+			return callSSAraw(i, caller, token.NoPos, fn, args, nil)
+		}
+		if sx.g == nil || sx.g.den != nil || sx.bad != "" {
+			unsupported("math.Modf of a non-grid symbolic float")
+		}
+		ip := gridRound(sx, "trunc")
+		return tuple{ip, symBinop(token.SUB, nil, sx, ip)}
 	}
 	t.Native["math.Abs"] = func(i *interpreter, caller *frame, fn *ssa.Function, args []value) value {
 		if sx, ok := args[0].(symv); ok {
